@@ -245,13 +245,27 @@ def rule_c(repo, chk):
     # predefine_names
     f = repo.find('jedi.inference.context', 'AbstractContext.predefine_names')
     chk.ob('C16.c', 'contextmanager' in decorators(f), f, 'predefine_names is a context manager')
-    stores = [s for s in stmts_in(f, ast.Assign) if isinstance(s.targets[0], ast.Subscript)]
+    subs = [s for s in stmts_in(f, ast.Assign) if isinstance(s.targets[0], ast.Subscript)]
     dels = [s for s in stmts_in(f, ast.Delete)]
+    saved = [s for s in stmts_in(f, ast.Assign) if isinstance(s.targets[0], ast.Name) and isinstance(s.value, ast.Call) and call_name(s.value) == 'get']
+    saved_names = {s.targets[0].id for s in saved}
+    stores = [s for s in subs if not (isinstance(s.value, ast.Name) and s.value.id in saved_names)]
+    restores = [s for s in subs if s not in stores]
     chk.floor('C16.c', len(stores), 1, '(store in predefine_names)')
     for s in stores:
-        w = paired(f, s, lambda cn: cn.ast in dels and norm(cn.ast.targets[0]) == norm(s.targets[0]))
-        chk.ob('C16.c', w is None, s, 'predefine_names removes its entry on every exit, also when the consumer raises or abandons the generator',
+        tgt = norm(s.targets[0])
+        w = paired(f, s, lambda cn: (cn.ast in dels and norm(cn.ast.targets[0]) == tgt) or (cn.ast in restores and norm(cn.ast.targets[0]) == tgt))
+        chk.ob('C16.c', w is None, s, 'predefine_names removes/restores its entry on every exit, also when the consumer raises or abandons the generator',
                'exit without removal: %s' % w if w else '')
+        # re-entrancy: nested use with the same key must give the outer user its entry back
+        c_ = cfg_of(f)
+        sn = c_.nodes_of(s)
+        save_before = [x for x in saved if c_.reach([c_.entry], lambda n: n in sn, block_node=lambda n: n.ast is x) is None]
+        ok = bool(save_before) and bool(restores) and all(
+            gate(f, d, lambda e, pol: pol and isinstance(e, ast.Compare) and isinstance(e.ops[0], ast.Is) and norm(e.left) in saved_names) is None for d in dels)
+        chk.ob('C16.c', ok, s, 'predefine_names is re-entrant for the same key: the previous entry is saved before the store and restored on exit '
+               '(an unconditional `del` makes the outer user fail with KeyError)',
+               'saved before the store: %s; restoring assignments: %d' % ([short(x) for x in save_before], len(restores)), key='predefine_names-reentrant')
     # monkeypatch
     f = repo.find('jedi.common', 'monkeypatch')
     sets = [c for c in calls_in(f, 'setattr')]
